@@ -133,6 +133,12 @@ def run(chk, facts_dir, tier):
         else:
             chk.fail("R15.3", WTP + name, "lookup-after-unlock", "the index lookup closure runs after the read guard was released", b, fcalls[0][1]["line"])
     chk.floor("R15.3", n, 3)
+    # ---------------- R15.4 the version / sequence queries answer from the newest sealed segment
+    chk.rule("R15.4", "QUERIES LOOK AT THE NEWEST SEGMENT FIRST: Database::get_stream_version and get_partition_sequence search the sealed segments newest first when the live index "
+                      "misses; oldest-first answers with an old maximum after a rollover, so an acknowledged version is not observed and one reader sees versions go backwards "
+                      "(shared with C02 R2.3)")
+    from . import c02
+    c02.newest_first(chk, prog, "R15.4", (c02.DB + "get_stream_version", c02.DB + "get_partition_sequence"), 2)
     return {}
 
 
